@@ -22,13 +22,18 @@ package blockntfns
 
 import (
 	"bufio"
+	"bytes"
 	"encoding/json"
 	"errors"
 	"fmt"
 	"math/rand"
 	"os"
+	"os/exec"
+	"path/filepath"
 	"runtime"
+	"sort"
 	"strconv"
+	"strings"
 	"sync"
 	"sync/atomic"
 	"testing"
@@ -68,7 +73,8 @@ func bnExpired() { atomic.AddInt32(&bnTimeouts, 1) }
 // tree that deviates everywhere still reports within minutes.
 var bnOffPaths int32
 
-const bnOffKeep = 48
+// per process; the work is spread over one child process per CPU
+var bnOffKeep = int32(max(3, 48/max(1, runtime.NumCPU())))
 
 type bnAct struct {
 	Op  string `json:"op"`
@@ -570,6 +576,7 @@ func bnRunPath(p bnPathIn) (out bnPathOut) {
 		return
 	}
 	out.InitObs = e.observe()
+	bnJBegin(out.ID, out.InitObs)
 	for _, st := range p.Steps {
 		op := st.Act.Op
 		s := st.Act.S - 1
@@ -590,6 +597,7 @@ func bnRunPath(p bnPathIn) (out bnPathOut) {
 		was := e.off
 		so := e.exec(st)
 		out.Steps = append(out.Steps, so)
+		bnJStep(so)
 		if so.Act.Res == "blocked" {
 			break
 		}
@@ -600,23 +608,344 @@ func bnRunPath(p bnPathIn) (out bnPathOut) {
 	return
 }
 
-func bnReadPaths(t *testing.T, fn string) []bnPathIn {
+// ---------------------------------------------------------------------------
+// Child processes.  A panic in a goroutine of the code under test cannot be
+// recovered by the driver and kills the process.  All work therefore runs in
+// child processes of this test binary (one per CPU, each executing its share
+// of the items ONE AT A TIME and journalling the item in progress).  When a
+// child dies with a Go panic whose stack is in the code under test, the item
+// in progress becomes a trace ending in the step Crash=panic (with the panic
+// text), which Props judge like any other outcome, and the child is restarted
+// behind that item.  A child that dies for any other reason is a driver error.
+type bnJournalHdr struct {
+	ID      int   `json:"id"`
+	InitObs bnObs `json:"init_obs"`
+}
+
+var bnJournal *os.File // only in children
+
+func bnJBegin(id int, o bnObs) {
+	if bnJournal == nil {
+		return
+	}
+	b, _ := json.Marshal(bnJournalHdr{ID: id, InitObs: o})
+	bnJournal.Truncate(0)
+	bnJournal.Seek(0, 0)
+	bnJournal.Write(append(b, '\n'))
+}
+
+func bnJStep(st bnStepOut) {
+	if bnJournal == nil {
+		return
+	}
+	st.Diag = ""
+	b, _ := json.Marshal(st)
+	bnJournal.Write(append(b, '\n'))
+}
+
+// bnCrashText extracts the panic message and the panicking goroutine's stack
+// and says whether the first frame outside the runtime is in the code under
+// test (blockntfns sources other than this driver, or lnd's queue).
+func bnCrashText(stderr string) (text string, inCUT bool, sendOnClosed bool) {
+	i := strings.Index(stderr, "panic: ")
+	if k := strings.Index(stderr, "fatal error: "); k >= 0 && (i < 0 || k < i) {
+		i = k
+	}
+	if i < 0 {
+		return "", false, false
+	}
+	text = stderr[i:]
+	if k := strings.Index(text, "\n\ngoroutine "); k >= 0 {
+		if e := strings.Index(text[k+2:], "\n\n"); e >= 0 {
+			text = text[:k+2+e]
+		}
+	}
+	if len(text) > 6000 {
+		text = text[:6000]
+	}
+	sendOnClosed = strings.Contains(text[:min(len(text), 200)], "send on closed channel")
+	for _, ln := range strings.Split(text, "\n") {
+		if !strings.HasPrefix(ln, "\t") {
+			continue
+		}
+		switch {
+		case strings.Contains(ln, "/runtime/") || strings.Contains(ln, "/src/testing/") || strings.Contains(ln, "/src/sync/"):
+			continue
+		case strings.Contains(ln, "zz_verif_"):
+			return text, false, sendOnClosed
+		case strings.Contains(ln, "/blockntfns/") || strings.Contains(ln, "/lnd/queue"):
+			return text, true, sendOnClosed
+		default:
+			return text, false, sendOnClosed
+		}
+	}
+	return text, false, sendOnClosed
+}
+
+func bnReadResults(fn string) ([]bnPathOut, error) {
 	f, err := os.Open(fn)
 	if err != nil {
-		t.Fatal(err)
+		if os.IsNotExist(err) {
+			return nil, nil
+		}
+		return nil, err
 	}
 	defer f.Close()
-	var paths []bnPathIn
+	var res []bnPathOut
 	sc := bufio.NewScanner(f)
 	sc.Buffer(make([]byte, 1<<20), 1<<28)
 	for sc.Scan() {
-		var p bnPathIn
-		if err := json.Unmarshal(sc.Bytes(), &p); err != nil {
+		var r bnPathOut
+		if err := json.Unmarshal(sc.Bytes(), &r); err != nil {
+			return nil, err
+		}
+		res = append(res, r)
+	}
+	return res, sc.Err()
+}
+
+// bnChildren runs items 0..n-1 of the given mode in child processes; child w
+// executes the items i with i % nw == w, in increasing order.
+func bnChildren(t *testing.T, mode string, n int, scratch string) []bnPathOut {
+	nw := runtime.NumCPU()
+	if v, err := strconv.Atoi(os.Getenv("VERIF_WORKERS")); err == nil && v > 0 {
+		nw = v
+	}
+	if nw > n {
+		nw = n
+	}
+	var mu sync.Mutex
+	var all []bnPathOut
+	var crashes int32
+	var wg sync.WaitGroup
+	for w := 0; w < nw; w++ {
+		wg.Add(1)
+		go func(w int) {
+			defer wg.Done()
+			outFn := filepath.Join(scratch, fmt.Sprintf("child-%s-%d.out", mode, w))
+			jFn := filepath.Join(scratch, fmt.Sprintf("child-%s-%d.journal", mode, w))
+			os.Remove(outFn)
+			defer os.Remove(outFn)
+			defer os.Remove(jFn)
+			var extra []bnPathOut
+			start := 0
+			for start < n {
+				os.Remove(jFn)
+				cmd := exec.Command(os.Args[0], "-test.run", "^TestVerifBlockNtfnsChild$", "-test.count=1",
+					"-test.timeout", "7200s")
+				cmd.Env = append(os.Environ(), "VERIF_CHILD="+mode, "VERIF_CHILD_W="+strconv.Itoa(w),
+					"VERIF_CHILD_NW="+strconv.Itoa(nw), "VERIF_CHILD_N="+strconv.Itoa(n),
+					"VERIF_CHILD_START="+strconv.Itoa(start), "VERIF_CHILD_OUT="+outFn, "VERIF_CHILD_JOURNAL="+jFn)
+				var buf bytes.Buffer
+				cmd.Stdout, cmd.Stderr = &buf, &buf
+				err := cmd.Run()
+				if err == nil {
+					break
+				}
+				// the child died: which item was in progress?
+				cur := bnPathOut{ID: -1, Steps: []bnStepOut{}}
+				idx := -1
+				if jb, e := os.ReadFile(jFn); e == nil {
+					lines := strings.Split(strings.TrimRight(string(jb), "\n"), "\n")
+					var hdr struct {
+						bnJournalHdr
+						Idx int `json:"idx"`
+					}
+					if len(lines) > 0 && json.Unmarshal([]byte(lines[0]), &hdr) == nil && hdr.InitObs.Sub != nil {
+						cur.ID, cur.InitObs = hdr.ID, hdr.InitObs
+						for _, ln := range lines[1:] {
+							var st bnStepOut
+							if json.Unmarshal([]byte(ln), &st) != nil {
+								break // a torn last line
+							}
+							cur.Steps = append(cur.Steps, st)
+						}
+					}
+				}
+				if ib, e := os.ReadFile(jFn + ".idx"); e == nil {
+					idx, _ = strconv.Atoi(strings.TrimSpace(string(ib)))
+				}
+				text, inCUT, soc := bnCrashText(buf.String())
+				if cur.ID < 0 && idx >= 0 && inCUT {
+					// died between two items (goroutines of the previous one)
+					cur.ID = 1000000000 + idx
+					cur.InitObs = bnObs{Sub: []int{}, Recv: [][]int{}, Closed: []int{}, Len: []int{}}
+				}
+				if cur.ID >= 0 && idx >= 0 && inCUT {
+					last := cur.InitObs
+					if len(cur.Steps) > 0 {
+						last = cur.Steps[len(cur.Steps)-1].Obs
+					}
+					k := 0
+					if soc {
+						k = 1
+					}
+					cur.Steps = append(cur.Steps, bnStepOut{Act: bnAct{Op: "Crash", K: k, Res: "panic"}, Obs: last, Diag: text})
+					cur.Mode = mode
+					cur.Info = "the process died with a panic in the code under test while this item was executed"
+				} else {
+					out := buf.String()
+					if len(out) > 4000 {
+						out = out[len(out)-4000:]
+					}
+					cur.Error = fmt.Sprintf("child %s/%d died (%v) at item %d, not with a panic of the code under test:\n%s",
+						mode, w, err, idx, out)
+					if cur.InitObs.Sub == nil {
+						cur.InitObs = bnObs{Sub: []int{}, Recv: [][]int{}, Closed: []int{}, Len: []int{}}
+					}
+				}
+				extra = append(extra, cur)
+				if idx < 0 || atomic.AddInt32(&crashes, 1) > 40 {
+					break // cannot resume / the verdict is in
+				}
+				start = idx + 1
+			}
+			res, err := bnReadResults(outFn)
+			if err != nil {
+				extra = append(extra, bnPathOut{ID: -1, Steps: []bnStepOut{}, Error: "reading child results: " + err.Error(),
+					InitObs: bnObs{Sub: []int{}, Recv: [][]int{}, Closed: []int{}, Len: []int{}}})
+			}
+			mu.Lock()
+			all = append(all, res...)
+			all = append(all, extra...)
+			mu.Unlock()
+		}(w)
+	}
+	wg.Wait()
+	sort.SliceStable(all, func(a, b int) bool { return all[a].ID < all[b].ID })
+	return all
+}
+
+type bnFreeCfg struct {
+	seed         int64
+	minEv, maxEv int
+	profile      string
+	screen       int
+}
+
+func bnFreeCfgFromEnv() bnFreeCfg {
+	c := bnFreeCfg{profile: os.Getenv("VERIF_FREE_PROFILE")}
+	c.seed, _ = strconv.ParseInt(os.Getenv("VERIF_SEED"), 10, 64)
+	c.minEv, _ = strconv.Atoi(os.Getenv("VERIF_FREE_MIN_EVENTS"))
+	c.maxEv, _ = strconv.Atoi(os.Getenv("VERIF_FREE_MAX_EVENTS"))
+	c.screen, _ = strconv.Atoi(os.Getenv("VERIF_FREE_SCREEN"))
+	if c.minEv <= 0 {
+		c.minEv = 5
+	}
+	if c.maxEv < c.minEv {
+		c.maxEv = c.minEv
+	}
+	return c
+}
+
+// bnFreeKeep: in a screened batch only runs whose outcome is not the plain
+// one (a receive sequence that is not consecutive, a blocked call, a run that
+// did not reach quiescence, a driver error) and every n-th run are written
+// out for judging.  The others are counted.
+func bnFreeKeep(i int, r *bnPathOut, screen int) bool {
+	if screen <= 0 || i%screen == 0 || r.Error != "" || len(r.Steps) == 0 ||
+		r.Steps[len(r.Steps)-1].Act.Op != "Quiesce" {
+		return true
+	}
+	for _, rv := range r.Steps[len(r.Steps)-1].Obs.Recv {
+		for j := 1; j < len(rv); j++ {
+			if rv[j] != rv[j-1]+1 {
+				return true
+			}
+		}
+	}
+	for _, st := range r.Steps {
+		if st.Act.Res == "blocked" {
+			return true
+		}
+	}
+	return false
+}
+
+func TestVerifBlockNtfnsChild(t *testing.T) {
+	mode := os.Getenv("VERIF_CHILD")
+	if mode == "" {
+		t.Skip("not a child")
+	}
+	w, _ := strconv.Atoi(os.Getenv("VERIF_CHILD_W"))
+	nw, _ := strconv.Atoi(os.Getenv("VERIF_CHILD_NW"))
+	n, _ := strconv.Atoi(os.Getenv("VERIF_CHILD_N"))
+	start, _ := strconv.Atoi(os.Getenv("VERIF_CHILD_START"))
+	of, err := os.OpenFile(os.Getenv("VERIF_CHILD_OUT"), os.O_CREATE|os.O_WRONLY|os.O_APPEND, 0o644)
+	if err != nil {
+		t.Fatal(err)
+	}
+	defer of.Close()
+	jFn := os.Getenv("VERIF_CHILD_JOURNAL")
+	bnJournal, err = os.Create(jFn)
+	if err != nil {
+		t.Fatal(err)
+	}
+	emit := func(r *bnPathOut) {
+		b, err := json.Marshal(r)
+		if err != nil {
 			t.Fatal(err)
 		}
-		paths = append(paths, p)
+		of.Write(append(b, '\n'))
 	}
-	return paths
+	mark := func(i int) {
+		// which item is in progress (read by the parent if we die)
+		os.WriteFile(jFn+".idx", []byte(strconv.Itoa(i)), 0o644)
+		bnJournal.Truncate(0)
+		bnJournal.Seek(0, 0)
+	}
+	defer os.Remove(jFn + ".idx")
+	guard := func(i int, r *bnPathOut) {
+		if x := recover(); x != nil {
+			r.ID, r.Steps = i, []bnStepOut{}
+			r.InitObs = bnObs{Sub: []int{}, Recv: [][]int{}, Closed: []int{}, Len: []int{}}
+			r.Error = fmt.Sprintf("driver panic: %v\n%s", x, bnDump())
+		}
+	}
+	switch mode {
+	case "replay":
+		f, err := os.Open(os.Getenv("VERIF_PATHS"))
+		if err != nil {
+			t.Fatal(err)
+		}
+		defer f.Close()
+		sc := bufio.NewScanner(f)
+		sc.Buffer(make([]byte, 1<<20), 1<<28)
+		for i := 0; sc.Scan(); i++ {
+			if i%nw != w || i < start {
+				continue
+			}
+			var p bnPathIn
+			if err := json.Unmarshal(sc.Bytes(), &p); err != nil {
+				t.Fatal(err)
+			}
+			mark(i)
+			var r bnPathOut
+			func() {
+				defer guard(p.ID, &r)
+				r = bnRunPath(p)
+			}()
+			emit(&r)
+		}
+	case "free":
+		c := bnFreeCfgFromEnv()
+		for i := w; i < n; i += nw {
+			if i < start {
+				continue
+			}
+			mark(i)
+			var r bnPathOut
+			func() {
+				defer guard(i, &r)
+				r = bnFreeRun(i, c.seed*1000003+int64(i)*7919+1, c.minEv, c.maxEv, c.profile)
+			}()
+			if bnFreeKeep(i, &r, c.screen) {
+				emit(&r)
+			}
+		}
+	default:
+		t.Fatal("unknown child mode " + mode)
+	}
 }
 
 func bnWrite(t *testing.T, fn string, results []bnPathOut) {
@@ -635,38 +964,39 @@ func bnWrite(t *testing.T, fn string, results []bnPathOut) {
 	of.Close()
 }
 
-func bnParallel(n int, fn func(i int)) {
-	var wg sync.WaitGroup
-	jobs := make(chan int)
-	nw := runtime.NumCPU()
-	if v, err := strconv.Atoi(os.Getenv("VERIF_WORKERS")); err == nil && v > 0 {
-		nw = v
+func bnScratch(t *testing.T) string {
+	sc := os.Getenv("VERIF_SCRATCH")
+	if sc == "" {
+		sc = t.TempDir()
 	}
-	for w := 0; w < nw; w++ {
-		wg.Add(1)
-		go func() {
-			defer wg.Done()
-			for i := range jobs {
-				fn(i)
-			}
-		}()
+	return sc
+}
+
+func bnCountLines(fn string) (int, error) {
+	f, err := os.Open(fn)
+	if err != nil {
+		return 0, err
 	}
-	for i := 0; i < n; i++ {
-		jobs <- i
+	defer f.Close()
+	sc := bufio.NewScanner(f)
+	sc.Buffer(make([]byte, 1<<20), 1<<28)
+	n := 0
+	for sc.Scan() {
+		n++
 	}
-	close(jobs)
-	wg.Wait()
+	return n, sc.Err()
 }
 
 func TestVerifBlockNtfnsReplay(t *testing.T) {
 	in, outFn := os.Getenv("VERIF_PATHS"), os.Getenv("VERIF_OUT")
-	if in == "" || outFn == "" {
+	if in == "" || outFn == "" || os.Getenv("VERIF_CHILD") != "" {
 		t.Skip("VERIF_PATHS / VERIF_OUT not set")
 	}
-	paths := bnReadPaths(t, in)
-	results := make([]bnPathOut, len(paths))
-	bnParallel(len(paths), func(i int) { results[i] = bnRunPath(paths[i]) })
-	bnWrite(t, outFn, results)
+	n, err := bnCountLines(in)
+	if err != nil {
+		t.Fatal(err)
+	}
+	bnWrite(t, outFn, bnChildren(t, "replay", n, bnScratch(t)))
 }
 
 // ---------------------------------------------------------------------------
@@ -701,6 +1031,7 @@ func (f *bnFree) obsLocked() bnObs {
 
 func (f *bnFree) logLocked(a bnAct, diag string) {
 	f.steps = append(f.steps, bnStepOut{Act: a, Obs: f.obsLocked(), Diag: diag})
+	bnJStep(f.steps[len(f.steps)-1])
 }
 
 // log appends one step at its linearisation point; mk runs under the log
@@ -758,6 +1089,7 @@ func bnFreeRun(id int, seed int64, minEv, maxEv int, profile string) (out bnPath
 	src.mu.Lock()
 	out.InitObs = f.obsLocked()
 	src.mu.Unlock()
+	bnJBegin(id, out.InitObs)
 
 	modes := []string{"fast", "fast", "slow", "stall", "never"}
 	stopAt := -1
@@ -1048,57 +1380,8 @@ func bnFreeRun(id int, seed int64, minEv, maxEv int, profile string) (out bnPath
 func TestVerifBlockNtfnsFree(t *testing.T) {
 	outFn := os.Getenv("VERIF_OUT")
 	runs, _ := strconv.Atoi(os.Getenv("VERIF_FREE_RUNS"))
-	if outFn == "" || runs <= 0 {
+	if outFn == "" || runs <= 0 || os.Getenv("VERIF_CHILD") != "" {
 		t.Skip("VERIF_OUT / VERIF_FREE_RUNS not set")
 	}
-	seed, _ := strconv.ParseInt(os.Getenv("VERIF_SEED"), 10, 64)
-	minEv, _ := strconv.Atoi(os.Getenv("VERIF_FREE_MIN_EVENTS"))
-	maxEv, _ := strconv.Atoi(os.Getenv("VERIF_FREE_MAX_EVENTS"))
-	if minEv <= 0 {
-		minEv = 5
-	}
-	if maxEv < minEv {
-		maxEv = minEv
-	}
-	profile := os.Getenv("VERIF_FREE_PROFILE")
-	// VERIF_FREE_SCREEN=n: a large batch; only runs whose outcome is not the
-	// plain one (a receive sequence that is not consecutive, a blocked call, a
-	// run that did not reach quiescence, a driver error) and every n-th run
-	// are written out for judging.  The others are counted.
-	screen, _ := strconv.Atoi(os.Getenv("VERIF_FREE_SCREEN"))
-	results := make([]bnPathOut, runs)
-	keep := make([]bool, runs)
-	bnParallel(runs, func(i int) {
-		defer func() {
-			if r := recover(); r != nil {
-				results[i].ID = i
-				results[i].Steps = []bnStepOut{}
-				results[i].Error = fmt.Sprintf("driver panic: %v\n%s", r, bnDump())
-				keep[i] = true
-			}
-		}()
-		r := bnFreeRun(i, seed*1000003+int64(i)*7919+1, minEv, maxEv, profile)
-		k := screen <= 0 || i%screen == 0 || r.Error != "" || len(r.Steps) == 0 ||
-			r.Steps[len(r.Steps)-1].Act.Op != "Quiesce"
-		if !k {
-			for _, rv := range r.Steps[len(r.Steps)-1].Obs.Recv {
-				for j := 1; j < len(rv); j++ {
-					if rv[j] != rv[j-1]+1 {
-						k = true
-					}
-				}
-			}
-		}
-		keep[i] = k
-		if k {
-			results[i] = r
-		}
-	})
-	var kept []bnPathOut
-	for i := range results {
-		if keep[i] {
-			kept = append(kept, results[i])
-		}
-	}
-	bnWrite(t, outFn, kept)
+	bnWrite(t, outFn, bnChildren(t, "free", runs, bnScratch(t)))
 }
